@@ -37,15 +37,11 @@ def arc_from_theta(edge_point_1: PointType, edge_point_2: PointType, angle: floa
 
     center = pm - length * axis / 2 - rm * mag_chord / 2 / np.tan(angle / 2)
 
-    mid = f.arc_mid(axis, center, edge_point_1, edge_point_2)
+    # the half-way point lies on the bisector of the chord, on the side given by the sign of the angle
+    # (also for half a turn, where the centre is on the chord, and for sectors of more than half a turn)
+    radius = f.norm(edge_point_1 - center)
 
-    if abs(angle) > np.pi:
-        # arc_mid gives the half-way point of the shorter arc between the two points;
-        # a sector of more than half a turn goes round the other side of the centre
-        radial = (mid - center) - np.dot(mid - center, axis) * axis
-        mid = mid - 2 * radial
-
-    return mid
+    return center + np.sign(angle) * radius * rm
 
 
 @dataclasses.dataclass
